@@ -106,4 +106,10 @@ def opHash (j : Json) : R Json := do
   | .ok h => pure (Json.mkObj [("ok", .str h.interp), ("canon", cvalJson (Dds.canonKF v))])
   | .error e => pure (Json.mkObj [("err", .str (errName e))])
 
+/-- {"op":"auth","accepted":[…],"parts":[…]} -/
+def opAuth (j : Json) : R Json := do
+  let a ← asStrList (← fld j "accepted")
+  let cp ← asStrList (← fld j "parts")
+  pure (Json.mkObj [("ok", .bool (Dds.isAuthorizedPath a cp))])
+
 end Drv
